@@ -57,7 +57,7 @@ func (g *Gen) Int(lo, hi int) int { // inclusive
 	}
 	return lo + g.Rng.IntN(hi-lo+1)
 }
-func (g *Gen) Pick(xs ...int) int { return xs[g.Rng.IntN(len(xs))] }
+func (g *Gen) Pick(xs ...int) int  { return xs[g.Rng.IntN(len(xs))] }
 func (g *Gen) Bool(p float64) bool { return g.Rng.Float64() < p }
 
 var families = map[string]*Family{}
@@ -69,38 +69,38 @@ var plans = map[string][]string{}
 
 // RunSpec identifies one run completely.
 type RunSpec struct {
-	Prop     string                `json:"property"`
-	Family   string                `json:"family"`
-	Tier     string                `json:"tier"`
-	Seed     uint64                `json:"seed"`
-	Idx      int                   `json:"idx"`
-	Scenario json.RawMessage       `json:"scenario"`
-	Policy   simsync.PolicyConfig  `json:"policy"`
-	Trace    []simsync.Decision    `json:"trace,omitempty"`
-	Replay   string                `json:"replay,omitempty"` // "", "strict", "tolerant"
+	Prop     string               `json:"property"`
+	Family   string               `json:"family"`
+	Tier     string               `json:"tier"`
+	Seed     uint64               `json:"seed"`
+	Idx      int                  `json:"idx"`
+	Scenario json.RawMessage      `json:"scenario"`
+	Policy   simsync.PolicyConfig `json:"policy"`
+	Trace    []simsync.Decision   `json:"trace,omitempty"`
+	Replay   string               `json:"replay,omitempty"` // "", "strict", "tolerant"
 }
 
 type RunResult struct {
-	Spec      RunSpec        `json:"spec"`
-	Outcome   string         `json:"outcome"` // ok | violation | inconclusive
-	End       string         `json:"end"`
-	Oracle    string         `json:"oracle,omitempty"`
-	Signature string         `json:"signature,omitempty"`
-	Message   string         `json:"message,omitempty"`
-	Steps     int            `json:"steps"`
-	Switches  int            `json:"switches"`
-	NonDef    int            `json:"nondefault"`
-	VirtMS    int64          `json:"virt_ms"`
-	Hash      string         `json:"hash"`
-	ILHash    string         `json:"il_hash"`
-	Faults    map[string]int `json:"faults,omitempty"`
-	Probes    map[string]int `json:"probes,omitempty"`
-	Classes   map[string]int `json:"classes,omitempty"`
+	Spec      RunSpec            `json:"spec"`
+	Outcome   string             `json:"outcome"` // ok | violation | inconclusive
+	End       string             `json:"end"`
+	Oracle    string             `json:"oracle,omitempty"`
+	Signature string             `json:"signature,omitempty"`
+	Message   string             `json:"message,omitempty"`
+	Steps     int                `json:"steps"`
+	Switches  int                `json:"switches"`
+	NonDef    int                `json:"nondefault"`
+	VirtMS    int64              `json:"virt_ms"`
+	Hash      string             `json:"hash"`
+	ILHash    string             `json:"il_hash"`
+	Faults    map[string]int     `json:"faults,omitempty"`
+	Probes    map[string]int     `json:"probes,omitempty"`
+	Classes   map[string]int     `json:"classes,omitempty"`
 	Trace     []simsync.Decision `json:"trace,omitempty"`
-	WallUS    int64          `json:"wall_us"`
-	GCs       uint32         `json:"gcs,omitempty"`
+	WallUS    int64              `json:"wall_us"`
+	GCs       uint32             `json:"gcs,omitempty"`
 	sitePairs map[string]struct{}
-	Log       []string       `json:"log,omitempty"`
+	Log       []string `json:"log,omitempty"`
 }
 
 // Ctx is what a family's Run sees.
@@ -343,8 +343,10 @@ func Execute(t *testing.T, spec RunSpec, known map[string]bool, keepLog bool) (r
 			for k, v := range c.Net.Fired {
 				res.Faults[k] += v
 			}
-			for k, v := range w.ClassN {
-				res.Classes[string(k)] = v
+			for _, k := range "TNFA" {
+				if w.ClassN[k] > 0 {
+					res.Classes[string(k)] = w.ClassN[k]
+				}
 			}
 			if w.Advances > 0 {
 				res.Faults["time_advance"] = w.Advances
@@ -357,7 +359,7 @@ func Execute(t *testing.T, spec RunSpec, known map[string]bool, keepLog bool) (r
 		})
 	})
 	runtime.ReadMemStats(&ms)
-	res.GCs = ms.NumGC - gc0 - 1
+	res.GCs = ms.NumGC - gc0
 	res.WallUS = time.Since(start).Microseconds()
 	return res
 }
